@@ -649,6 +649,23 @@ func c05RunAll(cases []c05Case) []c05Out {
 		r, have := res[i]
 		outs[i] = c05Out{c: cases[i], obs: c05Observe(cases[i], r, have, death, to)}
 	}
+	// the two cases that suffer most from competing processes (about 2500 nested goroutines / 3300 nested
+	// stages unwinding with wrapped errors) run before the pool starts, side by side
+	veryHeavy := func(b batch) bool {
+		src := cases[b.idx[0]].Leaf.Src
+		return len(b.idx) == 1 && (src == "recursion-through:list.multiUse" || src == "recursion-through:list.accept")
+	}
+	var rest []batch
+	for _, b := range batches {
+		if veryHeavy(b) {
+			wg.Add(1)
+			go func(i int) { defer wg.Done(); runOne(i) }(b.idx[0])
+		} else {
+			rest = append(rest, b)
+		}
+	}
+	wg.Wait()
+	batches = rest
 	for _, b := range batches {
 		wg.Add(1)
 		sem <- struct{}{}
